@@ -42,18 +42,19 @@ type RunSpec struct {
 	Cfg      map[string]interface{} `json:"cfg"`
 	Covers   []string               `json:"covers"`
 	Note     string                 `json:"note"`
+	Only     string                 `json:"only"` // "thorough": the run belongs to that tier only
 }
 
 type Spec struct {
-	Property     string                 `json:"property"`
-	Package      string                 `json:"package"` // directory below /repo ("." for the root package)
-	PkgName      string                 `json:"pkgname"`
-	Harness      []string               `json:"harness"` // paths below /verif
+	Property string   `json:"property"`
+	Package  string   `json:"package"` // directory below /repo ("." for the root package)
+	PkgName  string   `json:"pkgname"`
+	Harness  []string `json:"harness"` // paths below /verif
 	// Whitebox lists the harness files (a subset of Harness) that build states directly in the
 	// library's internal representation. If the tree under verification no longer compiles with
 	// them (its representation changed) but does without them, their entries are skipped and
 	// reported, and the remaining - black-box - entries still decide the property.
-	Whitebox []string `json:"whitebox"`
+	Whitebox     []string               `json:"whitebox"`
 	Runs         []RunSpec              `json:"runs"`
 	Assumptions  []string               `json:"assumptions"`
 	Outside      []string               `json:"outside_the_claim"`
@@ -217,6 +218,9 @@ func runCheck(prop, tier string, seed int64, only string) int {
 		loadT += eng.loadTime
 		for ri, rs := range part.Runs {
 			if only != "" && rs.Entry != only {
+				continue
+			}
+			if rs.Only != "" && rs.Only != tier {
 				continue
 			}
 			cfg := defaultConfig()
@@ -536,7 +540,10 @@ func writeAndRunReplay(dir string, spec *Spec, entry string, f *Finding, params 
 		count = 100
 	}
 	if f.Outcome == ORace {
-		count = 30
+		// an undirected race replay needs the two accesses to really overlap (sync.Pool, channels
+		// and the like order them otherwise): many short runs at several GOMAXPROCS values, the
+		// first report ends them (-failfast)
+		count = 150
 	}
 	ok, out := runReplay(dir, spec, entry, f, params, false, count)
 	return ok, out, dir
@@ -655,6 +662,9 @@ func runReplay(dir string, spec *Spec, entry string, f *Finding, params map[stri
 	extra := ""
 	if f.Outcome == ORace {
 		extra = "-race"
+		if !directed {
+			extra = "-race -cpu 2,4,16"
+		}
 	}
 	mode := "free scheduling"
 	if directed {
